@@ -149,6 +149,11 @@ fn main() {
             let n: usize = rest.split_whitespace().next().and_then(|s| s.parse().ok()).unwrap_or(0);
             std::thread::sleep(std::time::Duration::from_millis(300));
             serde_json::json!({ "result": [["x".repeat(n)]] })
+        } else if let Some(rest) = sql.strip_prefix("orphan ") {
+            // leaves a helper process behind that inherits this engine's stdout and outlives it
+            let secs = rest.split_whitespace().next().unwrap_or("60").to_string();
+            let _ = std::process::Command::new("sleep").arg(secs).stdin(std::process::Stdio::null()).stderr(std::process::Stdio::null()).spawn();
+            serde_json::json!({ "result": [] })
         } else if sql.starts_with("blankrow") {
             // two rows of one column; the second value is a single blank
             serde_json::json!({ "result": [["v"], [" "]] })
